@@ -129,6 +129,12 @@ class Anchors:
                 self.blk = x['d'][2:] + '$heap'
         if self.blk is None:
             raise AnalysisBroken('block array of %s not found' % self.Bq)
+        # rows of 16 bytes (b[units][16]) or one flat byte array (unit i at b + 16*i)
+        self.flat = False
+        for x in self.B['fields']:
+            t = T(x['t'])
+            if x['d'][2:] == self.blk and t.get('k') == 'array' and (T(t.get('el')) or {}).get('bits') == 8:
+                self.flat = True
         # chunk constants
         self.consts = {}
         for g in prog.globals.values():
@@ -184,6 +190,16 @@ def initial_state(A, role, ispadding):
     if A.live:
         st.mem[(A.live, ())] = sym(TSYM)
     return st
+
+
+def cell_path(A, blk, off, symr=None):
+    """Path (below the buffer object) of byte `off` of unit `blk` of the block array, for both layouts."""
+    if not A.flat:
+        return (A.blk, blk, off)
+    b = C(blk) if isinstance(blk, int) else blk
+    o = C(off) if isinstance(off, int) else off
+    v = add(mul(C(16), b, symr or {}), o, symr or {})
+    return (A.blk, v[1] if v[0] == 'c' else v)
 
 
 class RoleListener:
@@ -295,6 +311,22 @@ class RoleListener:
             elif ns is None or self.A.enum['INV'] in ns:
                 st.comps['cs_inv'] = -100
         self.buffer_access(I, st, loc, node, True)
+
+    def on_store(self, I, st, loc, val, node):
+        # the index of the slot whose turn it is only selects which slot is next; whatever arithmetic produced it, it is "some
+        # slot index": one rigid unknown per store site within what the value allows (slots are reasoned about through the
+        # hand-over protocol, never through index arithmetic)
+        if self.role == 'io' and loc is not None and loc[0] == BG and loc[1] == (self.A.Gq + '::turn',) and is_int(val):
+            if val[0] == 'l' and val[1] == 0 and len(val[2]) == 1 and val[2][0][1] == 1:
+                return
+            lo, hi = 0, 15
+            nm = '$turn%s' % (node.get('_id') if isinstance(node, dict) else '')
+            if nm in st.sym:
+                I.purge_symbol(st, nm)
+                for k in [k for k in st.comps if isinstance(k, tuple) and len(k) == 2 and k[1] == sym(nm)]:
+                    del st.comps[k]
+            st.sym[nm] = (lo, hi)
+            st.mem[loc] = sym(nm)
 
     def on_exit(self, I, st, node, code):
         # the process is ended from inside the pipeline on a path on which every library call succeeded (I/O errors are not modelled)
@@ -608,6 +640,33 @@ class PipelineAnalysis:
         rec.saw(I)
         return rl, wf, I, res, counters
 
+    @staticmethod
+    def slot_index_hook(I, st, fr, base, idx, node):
+        """I/O role: whatever arithmetic produced the index into the slot arrays, it is "some slot": one rigid unknown per
+        subscript site, written back to the variable it was read from so that later uses of that variable mean the same slot."""
+        if not (is_ptr(base) and base[0] == 'p' and base[1] in (CTRL, BUFS, SLOTS) and len(base[2]) <= 1 and is_int(idx)):
+            return idx
+        if idx[0] == 'l' and idx[1] == 0 and len(idx[2]) == 1 and idx[2][0][1] == 1 and str(idx[2][0][0]).startswith(('$slot', '$turn', 'turn0', '$n')):
+            return idx
+        r = rng(idx, st.sym) if idx != TOP else None
+        if r is not None and (r[1] < 0 or r[0] > 15):
+            return idx
+        lo, hi = 0, 15
+        nm = '$slot%s' % node.get('_id')
+        if nm in st.sym:
+            # the name is tied to the subscript site; what is known about the slot it denoted before is forgotten
+            I.purge_symbol(st, nm)
+            for k in [k for k in st.comps if isinstance(k, tuple) and len(k) == 2 and k[1] == sym(nm)]:
+                del st.comps[k]
+        st.sym[nm] = (lo, hi)
+        new = sym(nm)
+        lvn = I._lvalue_of_rvalue(node['idx']) if isinstance(node.get('idx'), dict) else None
+        if lvn is not None:
+            ls = I.lv(lvn, st, fr)
+            if len(ls) == 1 and ls[0][1] is not None and ls[0][0] is st:
+                st.mem[ls[0][1]] = new
+        return new
+
     def run_io(self, stable, own, ispadding, quiet, full_shape=None, report_k=True):
         A, rec = self.A, self.rec
         sumv, bufsz = self.consts()
@@ -627,6 +686,7 @@ class PipelineAnalysis:
         I.split_fields = split_hook(A)
         I.fread_override = partitioned_fread(A, sumv, bufsz)
         I.fgetc_override = fgetc_by_remaining
+        I.index_hook = self.slot_index_hook
         st = initial_state(A, 'io', ispadding)
         res = I.run(A.io, st, this=P(BG, ()), args=[('opaque', 'printload')])
         rec.saw(I)
@@ -817,7 +877,7 @@ def _check_cursor(self):
         for s2, v in res:
             now1 = s2.mem.get((OBJ, (self.cursor,)))
             if rel == 'lt':
-                want = P(OBJ, (arr, now0, 0))
+                want = P(OBJ, cell_path(A, now0, 0, s2.sym))
                 g = v == want and now1 == add(now0, C(1), s2.sym)
             else:
                 g = v == NULL and now1 == now0
@@ -882,7 +942,7 @@ def _check_unpad(self):
     st.mem[(OBJ, (A.Bq + '::now',))] = L(1, {'q': 1})
     st.mem[(OBJ, (A.Bq + '::total',))] = L(1, {'q': 1})
     st.mem[(OBJ, (A.Bq + '::tail',))] = C(0)
-    st.mem[(OBJ, (arr, sym('q'), 15))] = L(16, {'t': -1})
+    st.mem[(OBJ, cell_path(A, sym('q'), 15, st.sym))] = L(16, {'t': -1})
     st.abs = frozenset(k for k in st.mem if any(isinstance(x, tuple) for x in k[1]))
     args = []
     for p in f['params']:
@@ -957,20 +1017,27 @@ class ChunkRules:
         # PKCS#7: p = 16 - (load & 15) in [1,16], written at block load>>4, offset tail, length p, value p, tail + p = 16
         got = st.mem.get(AUXGOT)
         path = dst[2]
-        blk, off = path[-2], path[-1]
+        flat = self.A.flat
+        blk, off = (None, path[-1]) if flat else (path[-2], path[-1])
         ok = False
         detail = 'memset(%s, %s, %s) after reading %s bytes' % (show(dst), show(val), show(size), show(got) if got else '?')
         if got is not None and is_int(got) and got != TOP:
             t = binop('&', got, C(15), st.sym)
             q = binop('>>', got, C(4), st.sym)
             p = add(C(16), t, st.sym, -1)
-            blkv = C(blk) if isinstance(blk, int) else blk
             offv = C(off) if isinstance(off, int) else off
             eq = lambda x, y: is_int(x) and is_int(y) and compare('==', x, y, st.sym) is True
             rp = rng(p, st.sym)
-            r = rng(blkv, st.sym) if is_int(blkv) else None
-            ok = (eq(val, p) and eq(size, p) and eq(offv, t) and eq(blkv, q) and rp is not None and 1 <= rp[0] and rp[1] <= 16
-                  and r is not None and 0 <= r[0] and r[1] < self.bufsz)
+            if flat:
+                # one byte array: the padding starts at byte `load` and ends with the unit
+                r = rng(offv, st.sym) if is_int(offv) else None
+                ok = (eq(val, p) and eq(size, p) and eq(offv, got) and rp is not None and 1 <= rp[0] and rp[1] <= 16
+                      and r is not None and 0 <= r[0] and r[1] + 16 <= self.sumv + 15 and r[1] < self.sumv)
+            else:
+                blkv = C(blk) if isinstance(blk, int) else blk
+                r = rng(blkv, st.sym) if is_int(blkv) else None
+                ok = (eq(val, p) and eq(size, p) and eq(offv, t) and eq(blkv, q) and rp is not None and 1 <= rp[0] and rp[1] <= 16
+                      and r is not None and 0 <= r[0] and r[1] < self.bufsz)
             detail += '; PKCS#7 expects value=len=%s at block %s offset %s, block index in [0,%d)' % (show(p), show(q), show(t), self.bufsz)
         self.rec.ob('R01.a', 'R01.a@%s::pad-write' % fkey(fr.fn), ok, nloc(node), detail)
 
